@@ -126,6 +126,21 @@ def field_uses(linker, fname, pname, depth=0, seen=None):
     def gdesc(g):
         flds = set()
         others = False
+        scr, pat = g.get("scrut"), g.get("pat")
+        scr0 = H.peel_ref(scr) if isinstance(scr, dict) else None
+        if isinstance(scr0, dict) and scr0.get("k") == "tuple" and isinstance(pat, dict) and pat.get("k") == "tuple" and \
+                len(pat.get("subs") or []) == len(scr0.get("es") or []) and "taken" not in g:
+            # `match (a.x, a.y) { (true, _) => .. }`: an arm tests only the components its pattern constrains
+            parts = []
+            for sub, comp in zip(pat["subs"], scr0["es"]):
+                if sub.get("k") == "wild" or (sub.get("k") == "bind" and sub.get("sub") is None):
+                    continue
+                flds |= pfields(comp)
+                parts.append("%s is %s" % (T.text(comp), T.pat_text(sub)))
+            if isinstance(g.get("arm_guard"), dict):
+                flds |= pfields(g["arm_guard"])
+                parts.append(T.text(g["arm_guard"]))
+            return {"text": " && ".join(parts) or "_", "fields": sorted(flds), "taken": g.get("taken")}
         for n in guard_nodes(g):
             flds |= pfields(n)
         return {"text": g.get("text"), "fields": sorted(flds), "taken": g.get("taken")}
